@@ -148,7 +148,7 @@ Definition out_byte (b : N) : dm unit :=
 
 Fixpoint copy_match (n : nat) (mpos : N) : dm unit :=
   match n with O => ret tt | S n' =>
-    s <- get ;; _ <- out_byte (tget WD (win s) mpos 170 (* junk: 0xAA *)) ;;
+    s <- get ;; _ <- out_byte (tget WD (win s) mpos 0 (* the window is cleared at initialisation *)) ;;
     copy_match n' (N.land (mpos + 1) (FRAME - 1)) end.
 
 (* READ_HUFFSYM, LSB order *)
@@ -298,7 +298,7 @@ Fixpoint find_ck (fuel : nat) (state : N) : dm unit :=
     if st' =? 2 then ret tt else find_ck f st' end.
 
 Fixpoint win_bytes (n : nat) (w : tr) (i : N) (acc : list N) : list N :=
-  match n with O => rev_append acc [] | S n' => win_bytes n' w (i + 1) (tget WD w i 170 :: acc) end.
+  match n with O => rev_append acc [] | S n' => win_bytes n' w (i + 1) (tget WD w i 0 :: acc) end.
 
 Fixpoint decompress (fuel : nat) (out_bytes : N) : dm N :=
   match fuel with O => ret 99 | S f =>
